@@ -1064,8 +1064,8 @@ fn first_diff(a: &[Diag], b: &[Diag]) -> String {
 
 const LSP_LANGS: &[(&str, &str)] = &[("TypeScript", "ts"), ("JavaScript", "js"), ("Python", "py"), ("Rust", "rs"), ("Go", "go"), ("Css", "css")];
 
-fn gen_text(r: &mut Rng, lang: &str) -> String {
-  if r.chance(0.08) {
+fn gen_text(r: &mut Rng, lang: &str, allow_large: bool) -> String {
+  if allow_large && r.chance(0.08) {
     // hundreds of findings: large frames create back-pressure
     let line = match lang {
       "Python" => "print(1)\n",
@@ -1113,6 +1113,9 @@ pub fn gen_world(seed: u64) -> LspWorld {
     let ext = rel.rsplit('.').next().unwrap_or("");
     LSP_LANGS.iter().find(|x| x.1 == ext).map(|x| x.0).unwrap_or("TypeScript")
   };
+  // documents with hundreds of findings create back-pressure; with randomly generated rules
+  // (nested relational rules) they would mostly create matching time, so not both at once
+  let allow_large = !project.all_rules().iter().any(|x| x.id.starts_with("gen-") || x.id.starts_with("use-rg"));
   // protocol-valid history per URI, interleaved
   let mut history = vec![];
   let mut open = vec![false; nuri];
@@ -1123,7 +1126,7 @@ pub fn gen_world(seed: u64) -> LspWorld {
     let lang = lang_of(&uris[u].rel);
     if !open[u] {
       top[u] += r.range(1, 3) as i32;
-      history.push(Msg::Open { uri: u, version: top[u], text: gen_text(&mut r, lang) });
+      history.push(Msg::Open { uri: u, version: top[u], text: gen_text(&mut r, lang, allow_large) });
       open[u] = true;
       continue;
     }
@@ -1144,7 +1147,7 @@ pub fn gen_world(seed: u64) -> LspWorld {
           top[u] += r.range(1, 2) as i32 + if r.chance(0.3) { 1 } else { 0 };
           top[u]
         };
-        history.push(Msg::Change { uri: u, version, text: gen_text(&mut r, lang) });
+        history.push(Msg::Change { uri: u, version, text: gen_text(&mut r, lang, allow_large) });
       }
       12 | 13 => {
         history.push(Msg::Close { uri: u });
